@@ -330,6 +330,8 @@ type lexer struct {
 	items       chan item // channel of scanned items.
 	doubleDelim bool      // flag for tags starting with double braces.
 	lastEmit    item      // type of most recent item emitted
+	outer       string    // for an expression quoted inside a file: the text of that file, and
+	base        ast.Pos   // the offset in it that input stands at (item positions are offsets into outer).
 }
 
 // nextItem returns the next item from the input.
@@ -362,6 +364,22 @@ func lexExpr(name, input string) *lexer {
 		input: input,
 		items: make(chan item),
 		state: lexInsideTag,
+	}
+	go l.run()
+	return l
+}
+
+// lexExprAt lexes a single expression that is quoted inside the file whose text
+// is outer, as if it stood at offset base of that text: item positions, and the
+// line and column numbers computed from them, are the file's.
+func lexExprAt(name, input, outer string, base ast.Pos) *lexer {
+	l := &lexer{
+		name:  name,
+		input: input,
+		items: make(chan item),
+		state: lexInsideTag,
+		outer: outer,
+		base:  base,
 	}
 	go l.run()
 	return l
@@ -403,7 +421,7 @@ func (l *lexer) emit(t itemType) {
 	if l.pos > ast.Pos(len(l.input)) {
 		l.pos = ast.Pos(len(l.input))
 	}
-	l.lastEmit = item{t, l.pos, l.input[l.start:l.pos]}
+	l.lastEmit = item{t, l.base + l.pos, l.input[l.start:l.pos]}
 	l.items <- l.lastEmit
 	l.start = l.pos
 }
@@ -434,12 +452,20 @@ func (l *lexer) acceptRun(valid string) bool {
 // lineNumber reports which line we're on. Doing it this way
 // means we don't have to worry about peek double counting.
 func (l *lexer) lineNumber(pos ast.Pos) int {
-	return 1 + strings.Count(l.input[:pos], "\n")
+	return 1 + strings.Count(l.whole()[:pos], "\n")
+}
+
+// whole returns the text that item positions are offsets into.
+func (l *lexer) whole() string {
+	if l.outer != "" {
+		return l.outer
+	}
+	return l.input
 }
 
 // columnNumber reports which column in the current line we're on.
 func (l *lexer) columnNumber(pos ast.Pos) int {
-	n := strings.LastIndex(l.input[:pos], "\n")
+	n := strings.LastIndex(l.whole()[:pos], "\n")
 	if n == -1 {
 		n = 0
 	}
@@ -449,7 +475,7 @@ func (l *lexer) columnNumber(pos ast.Pos) int {
 // errorf returns an error item and terminates the scan by passing
 // back a nil pointer that will be the next state, terminating l.nextItem.
 func (l *lexer) errorf(format string, args ...interface{}) stateFn {
-	l.items <- item{itemError, l.pos, fmt.Sprintf(format, args...)}
+	l.items <- item{itemError, l.base + l.pos, fmt.Sprintf(format, args...)}
 	return nil
 }
 
